@@ -27,6 +27,7 @@ structure DS where
   nextGid : Nat
   path : String := ""          -- e2e: the sampled upgrade path
   epoll : String := ""         -- e2e: lt | et | etos
+  ctl : List Nat := []          -- cb: wire positions of the frames that were pings / pongs (logged as p<k>)
 
 def cbName (j : Nat) : String :=
   if j == WsCb.jobOpen then "open" else if j == WsCb.jobClose then "close" else s!"m{j - 2}"
@@ -37,7 +38,10 @@ def heldCb (s : WsCb.St) : Option Nat :=
   | j :: _ => if WsCb.isCallback s j then some j else none
   | [] => none
 
-def cbLine (s : WsCb.St) : String :=
+def cbLine (s : WsCb.St) (ctl : List Nat := []) : String :=
+  -- a control frame (ping / pong) is a job like a data message (handleProtocolMessage → handleMessage → Execute):
+  -- only its name in the log differs
+  let cbName (j : Nat) : String := if j ≥ 2 && ctl.contains (j - 2) then s!"p{j - 2}" else cbName j
   let log := String.intercalate "," ((WsCb.callbacks s).map cbName)
   let running := ((heldCb s).map cbName).getD "-"
   s!"R log={log} run={running}"
@@ -80,19 +84,19 @@ partial def loop (h : IO.FS.Stream) (d : DS) : IO Unit := do
   | _ =>
   match d.mode, ws with
   | .cb, ["O", "upgrade"] =>
-    let s := cbSettle d.holdExec 8 (WsCb.run d.cb [.upgrade]); IO.println (cbLine s); loop h { d with cb := s }
+    let s := cbSettle d.holdExec 8 (WsCb.run d.cb [.upgrade]); IO.println (cbLine s d.ctl); loop h { d with cb := s }
   | .cb, ["O", "go"] =>
-    let s := cbSettle false 8 d.cb; IO.println (cbLine s); loop h { d with cb := s, holdExec := false }
+    let s := cbSettle false 8 d.cb; IO.println (cbLine s d.ctl); loop h { d with cb := s, holdExec := false }
   | .cb, ["O", "recv"] =>
-    let s := cbSettle d.holdExec 8 (WsCb.run d.cb [.recv]); IO.println (cbLine s); loop h { d with cb := s }
+    let s := cbSettle d.holdExec 8 (WsCb.run d.cb [.recv]); IO.println (cbLine s d.ctl); loop h { d with cb := s }
   | .cb, ["O", "flip"] =>
-    let s := cbSettle d.holdExec 8 (WsCb.run d.cb [.flip, .notify]); IO.println (cbLine s); loop h { d with cb := s }
+    let s := cbSettle d.holdExec 8 (WsCb.run d.cb [.flip, .notify]); IO.println (cbLine s d.ctl); loop h { d with cb := s }
   | .cb, ["O", "cb"] =>
     let s := match heldCb d.cb with
       | some _ => WsCb.run d.cb [.q (.finish 0 false), .q (.next 0 false)]
       | none => d.cb
     let s := cbSettle d.holdExec 8 s
-    IO.println (cbLine s); loop h { d with cb := s }
+    IO.println (cbLine s d.ctl); loop h { d with cb := s }
   | .cb, ["O", "cbpanic"] =>
     -- the held handler panics into the per-job recover wrapper (ExecQ: `finish d true`, then the hand-over step)
     let s := match heldCb d.cb with
@@ -100,8 +104,17 @@ partial def loop (h : IO.FS.Stream) (d : DS) : IO Unit := do
                   else WsCb.run d.cb [.q (.finish 0 true), .q (.next 0 false)]
       | none => d.cb
     let s := cbSettle d.holdExec 8 s
-    IO.println (cbLine s); loop h { d with cb := s }
-  | .cb, ["Q"] => IO.println (cbLine d.cb); loop h d
+    IO.println (cbLine s d.ctl); loop h { d with cb := s }
+  | .cb, ["O", kind] =>
+    if kind == "ping" || kind == "pong" then
+      -- a ping / pong frame: the same `recv` step (a job submitted through Execute, in wire order)
+      let k := d.cb.wireMsgs
+      let s0 := WsCb.run d.cb [.recv]
+      let ctl := if s0.wireMsgs > k then k :: d.ctl else d.ctl
+      let s := cbSettle d.holdExec 8 s0
+      IO.println (cbLine s ctl); loop h { d with cb := s, ctl }
+    else do IO.println "bad-op"; loop h d
+  | .cb, ["Q"] => IO.println (cbLine d.cb d.ctl); loop h d
   | .wq, "O" :: "write" :: len :: rest =>
     -- `frags=` (compressed messages): the fragment count is the implementation's (queued frames of an accepted call,
     -- an estimate for a refused one); without it the count follows from the length
